@@ -197,6 +197,78 @@ func boundsObligations(w *World, p *Property) boundsResult {
 	return res
 }
 
+// madeLenOf: t is the result of calling a module function every return of
+// which hands back make(_, n); n in the caller's terms (the callee's
+// parameters replaced by the arguments; memory is compared without regard to
+// when it was read, as elsewhere in the bounds obligations).
+func madeLenOf(w *World, t *T, depth int) (*T, bool) {
+	t = stripConv(t)
+	if t.Op == "ext" && t.C == 1 && len(t.A) == 1 {
+		t = t.A[0]
+	}
+	if t.Op != "call" || depth > 2 {
+		return nil, false
+	}
+	g := w.funcByKey(t.S)
+	if g == nil || len(g.Blocks) == 0 || !w.inPkgs(g) || len(t.A) != len(g.Params) {
+		return nil, false
+	}
+	gps, err := w.Paths(g)
+	if err != nil {
+		return nil, false
+	}
+	var out *T
+	for _, gp := range gps {
+		if gp.End != "ret" || len(gp.Ret) == 0 {
+			continue
+		}
+		r := stripConv(gp.Ret[0])
+		var n *T
+		switch {
+		case r.Op == "makeslice":
+			n = r.A[0]
+		default:
+			inner, ok := madeLenOf(w, r, depth+1)
+			if !ok {
+				return nil, false
+			}
+			n = inner
+		}
+		n = rewrite(n, func(x *T) *T {
+			if x.Op == "p" {
+				for k, prm := range g.Params {
+					if prm.Name() == x.S {
+						return t.A[k]
+					}
+				}
+			}
+			return nil
+		})
+		if out != nil && !sameTerm(out, n) {
+			return nil, false
+		}
+		out = n
+	}
+	return out, out != nil
+}
+
+// arrayLenOf: the static length of the array behind base (an array value, a
+// pointer to one, or a package-level array).
+func arrayLenOf(base *T) (int64, bool) {
+	t := stripConv(base)
+	ty := t.Ty
+	if ty == nil {
+		return 0, false
+	}
+	if p, ok := ty.Underlying().(*types.Pointer); ok {
+		ty = p.Elem()
+	}
+	if a, ok := ty.Underlying().(*types.Array); ok {
+		return a.Len(), true
+	}
+	return 0, false
+}
+
 func uniqStrings(xs []string) []string {
 	var out []string
 	for i, x := range xs {
@@ -288,6 +360,12 @@ func lenAtLeast(w *World, x *T, n int64, p *Path) (bool, string) {
 	}
 	if sl, ok := staticLen(x); ok {
 		return sl >= n, fmt.Sprintf("slice of a whole array of %d elements", sl)
+	}
+	// x[k:] has len(x) - k elements
+	if x.Op == "slice" && len(x.A) == 4 && x.A[1].IsConst() && x.A[1].C >= 0 && x.A[2].Op == "none" {
+		if ok, why := lenAtLeast(w, x.A[0], n+x.A[1].C, p); ok {
+			return true, fmt.Sprintf("x[%d:] of a list with %s", x.A[1].C, why)
+		}
 	}
 	// a string that provably ends in the newline it was read up to (or had one appended) is not empty
 	if n == 1 && endsWithNewline(x, p) {
@@ -606,6 +684,29 @@ func dischargeBounds0(w *World, c *simCtx, fn *ssa.Function, p *Path, e *Event) 
 			}
 		}
 	}
+	// a fixed-size array indexed by the value a reader returned without error: every value the
+	// reader can return (its spelling table) is below the array's length
+	if n, ok := arrayLenOf(base); ok {
+		ix := stripConv(idx)
+		if ix.Op == "ext" && ix.C == 1 && len(ix.A) == 1 && ix.A[0].Op == "call" {
+			errOK := hasCond(p, func(a *T, v bool) bool {
+				return a.Op == "eq" && v && a.A[1].Op == "nil" && a.A[0].Op == "ext" && a.A[0].C == 2 && a.A[0].A[0].Key() == ix.A[0].Key()
+			})
+			if g := w.funcByKey(ix.A[0].S); g != nil && errOK {
+				if set, ok := retSet(w, g); ok && set != 0 {
+					top := int64(0)
+					for _, v := range bitsOf(set) {
+						if v > top {
+							top = v
+						}
+					}
+					if top < n {
+						return true, fmt.Sprintf("the reader returns one of %d values, all below the array length %d", len(bitsOf(set)), n)
+					}
+				}
+			}
+		}
+	}
 	// generic guards -------------------------------------------------------
 	ix := stripConv(idx)
 	// j := slices.Index(y, v); j >= 0  indexes y itself or a slice made with len(y)
@@ -613,6 +714,10 @@ func dischargeBounds0(w *World, c *simCtx, fn *ssa.Function, p *Path, e *Event) 
 		found := hasCond(p, func(a *T, v bool) bool { return a.Op == "lt" && !v && sameTerm(a.A[0], ix) && a.A[1].IsConstVal(0) })
 		b := stripConv(base)
 		sameLen := sameTerm(b, ix.A[0]) || (b.Op == "makeslice" && isLenOf(b.A[0], ix.A[0]))
+		// ... or a list a module function made with len(y) elements
+		if n, ok := madeLenOf(w, b, 0); ok && isLenOf(n, ix.A[0]) {
+			sameLen = true
+		}
 		if found && sameLen {
 			return true, "slices.Index(y, _) >= 0 tested: a position inside y, and x has len(y) elements"
 		}
